@@ -21,6 +21,11 @@ def NoWs (s : Str) : Prop := ∀ c ∈ s, isWs c = false
 instance (s : Str) : Decidable (AllWs s) := by unfold AllWs; infer_instance
 instance (s : Str) : Decidable (NoWs s) := by unfold NoWs; infer_instance
 
+/-- empty or starting with a blank: a token written before it is terminated -/
+def brkB : Str → Bool
+  | [] => true
+  | c :: _ => isWs c
+
 /-- worker of `str.split()`: `cur` is the token being collected -/
 def splitGo : Str → Str → List Str
   | cur, [] => if cur.isEmpty then [] else [cur]
